@@ -72,3 +72,8 @@ C['C17'] = dict(
  text="All 1 884 sessions of up to three lines over a 12-line alphabet and random sessions of up to 12 lines (declarations, assignments, loops, functions used inside their line, heap-valued globals; lines that fail to parse, fail to compile at every statement position, fail at run time after a prefix of their statements) are executed on one retained (Compiler, VM) pair; TLC validates each line's observation against NlSem on the concatenation. Sessions whose increment line is cut short by an injected error after k instructions, for every k, are validated against NlSession: later lines must show a state that some prefix of the line's assignments produces, rejected lines leave no trace.",
  ref="DESIGN.md 5 C17",
  note="Trusted: TLC, the recorder, the harness's construction of the concatenated program (a session whose line fails where no failure was planned is validated up to and including that line only).")
+C['C16'] = dict(
+ tech="TLA+ history specification NlPure (a call can only finish with the fresh-process baseline of its program) checked by TLC on recorded histories: random order with repetitions in one process, 16 concurrent threads with seeded per-thread orders, and a release build",
+ text="Batches of generated programs are evaluated once each in a process that has evaluated nothing else (baseline), then many times in random order in one process, concurrently from 16 threads, and by an interpreter built with optimisation and without overflow checks or debug assertions; TLC validates every finished call of every history against the specification's only action, Finish(obs = Baseline[p]), and the per-thread event order.",
+ ref="DESIGN.md 5 C16",
+ note="Trusted: TLC, the recorder. Thread schedules are sampled, not enumerated (stated in the evidence). Thread ownership of heap boxes is not recorded by the hooks; cross-thread interference would show as an impure observation or a shadow-heap fault.")
